@@ -941,6 +941,93 @@ def fnline(f, bi):
 # C10.S data section
 # ---------------------------------------------------------------------------------------------------
 
+def rule_g(F):
+    """C10.G: global ids and names correspond one to one. At every site that registers a global the string stored in
+    `variables.names` is the very string whose bytes key `variables.ids` (same local), and the names key is the id that the
+    ids entry produced. The host reads globals by name -> hash -> id; a name table keyed or filled from another string
+    (the dotted path of a property read) names ids that no lookup can reach."""
+    res = []
+    n = 0
+    for f in F.fns:
+        if not f.hir or f.is_closure or not f.path.startswith("compiler::"):
+            continue
+        inits = hu.let_inits(f)
+        name_sites = []
+        id_sites = []
+        for x in hir_walk(f.hir["body"]):
+            if x.get("k") == "mcall" and x["name"] == "entry":
+                ch = hu.field_chain(x["recv"])
+                if ch and ch[1][-2:] == ["variables", "names"]:
+                    name_sites.append(x)
+                if ch and ch[1][-2:] == ["variables", "ids"]:
+                    id_sites.append(x)
+        if not name_sites:
+            continue
+        fname = f.short.rsplit("::", 1)[-1]
+
+        def hashed_local(e, depth=0):
+            """local whose bytes are hashed to make the Handle `e`"""
+            e = hu.strip_all(e)
+            if e is None or depth > 6:
+                return None
+            if e.get("k") == "call" and any(n_.endswith("Handle::from_bytes") or n_.endswith("Handle::from_str") or n_.endswith("FromStr::from_str")
+                                            for n_ in hir_callee(e)):
+                for y in hir_walk(e["args"][0]):
+                    if y.get("k") == "path" and y["path"]["res"].get("k") == "local":
+                        return y["path"]["res"]
+                return None
+            lid = hir_local_id(e)
+            if lid is not None and len(inits.get(lid, [])) == 1:
+                return hashed_local(inits[lid][0], depth + 1)
+            return None
+
+        keyed = [hashed_local(x["args"][0]) for x in id_sites]
+        keyed = [k for k in keyed if k is not None]
+        # statement that consumes the names entry: find enclosing or_insert* call
+        parents = {}
+        for x in hir_walk(f.hir["body"]):
+            for c in hir_children(x):
+                parents[id(c)] = x
+        for i, x in enumerate(name_sites):
+            key = "C10/G/%s/name%s-is-the-hashed-string" % (fname, "" if i == 0 else "#%d" % i)
+            loc = f.loc(x.get("ln"))
+            par = parents.get(id(x))
+            while par is not None and not (par.get("k") == "mcall" and par["name"].startswith("or_insert")):
+                par = parents.get(id(par))
+            if par is None or not par.get("args"):
+                res.append(undecided("C10.G", key, loc, "names entry is not consumed by or_insert*"))
+                continue
+            stored = [y["path"]["res"] for y in hir_walk(par["args"][0]) if y.get("k") == "path" and y["path"]["res"].get("k") == "local"
+                      and (y.get("ty") or "").replace("&", "").strip() in ("str", "std::string::String")]
+            n += 1
+            if not keyed:
+                res.append(bad("C10.G", key, loc, "%s fills variables.names but no variables.ids entry keyed by a hashed string is made in "
+                               "the same function: ids and names no longer correspond" % fname))
+            elif stored and all(any(sv["id"] == kv["id"] for kv in keyed) for sv in stored):
+                res.append(ok("C10.G", key, loc, "names value is `%s`, the string hashed for the ids key" % stored[0]["name"]))
+            else:
+                res.append(bad("C10.G", key, loc, "%s records the global under the name `%s` but keys variables.ids by the hash of `%s`: the "
+                               "name table then lists a string whose hash is not the id's key (e.g. the whole dotted path `cfg.speed` for the "
+                               "global `cfg`), so global ids and names no longer correspond one to one" %
+                               (fname, stored[0]["name"] if stored else "?", keyed[0]["name"])))
+            # the names key is the id produced by the ids entry
+            key2 = "C10/G/%s/name%s-keyed-by-the-id" % (fname, "" if i == 0 else "#%d" % i)
+            id_locals = set()
+            for lid, es in inits.items():
+                for e in es:
+                    if any(y is s_ for s_ in id_sites for y in hir_walk(e)):
+                        id_locals.add(lid)
+            used = [y["path"]["res"]["id"] for y in hir_walk(x["args"][0]) if y.get("k") == "path" and y["path"]["res"].get("k") == "local"]
+            if used and all(u in id_locals for u in used):
+                res.append(ok("C10.G", key2, loc, "names key is built from the id the ids entry returned"))
+            else:
+                res.append(bad("C10.G", key2, loc, "%s keys variables.names by something other than the id that the variables.ids entry "
+                               "returned: ids and names no longer correspond" % fname))
+    if n < 2:
+        raise AnchorMissing("sites filling variables.names (found %d)" % n)
+    return res
+
+
 def rule_s(F):
     res = []
     # who writes program.data (HIR: any &mut borrow / method call with &mut self on <x>.program.data)
@@ -1040,5 +1127,6 @@ RULES = [
     Rule("C10.J", rule_j, 6, "jump operands are placeholders that get patched, or derive from bytecode.len()"),
     Rule("C10.E", rule_e, 2, "terminal Exit on every Ok path of Compiler::compile"),
     Rule("C10.U", shared(_c06_rule_w, "C06.W", "C10.U"), 2, "upvalue operands index the closure's own upvalue list (shared with C06.W)"),
+    Rule("C10.G", rule_g, 4, "global ids and names are registered from the same string and id"),
     Rule("C10.S", rule_s, 6, "data-section string encoding and handles"),
 ]
